@@ -417,3 +417,16 @@ func (d *SQLDB) Put(id string, created int64, keyRecord string) bool {
 	d.rows = append(d.rows, sqlRow{id, created, keyRecord, len(d.rows)})
 	return true
 }
+
+// Update replaces the key_record of an existing row (an operator's UPDATE); false if absent.
+func (d *SQLDB) Update(id string, created int64, keyRecord string) bool {
+	d.mu.Lock()
+	defer d.mu.Unlock()
+	for i, r := range d.rows {
+		if r.id == id && r.created == created {
+			d.rows[i].keyRecord = keyRecord
+			return true
+		}
+	}
+	return false
+}
